@@ -12,6 +12,7 @@ r = Run('setup')
 try:
     replay.build(r, 'c21')
     replay.build(r, 'c31', deps=('erg_common',))
+    replay.build(r, 'c21t', deps=('erg_common',))
     replay.build(r, 'c06')
     replay.build(r, 'c03')
     replay.build(r, 'c24')
